@@ -825,7 +825,17 @@ class LogicalLinkController(object):
             raise err.Error(errno.EOPNOTSUPP)
         while True:
             client = socket.accept()
-            self.sap[client.addr].insert_socket(client)
+            with self.lock:
+                # Find the service access point and insert the new socket
+                # in one step with regard to terminate(), otherwise the
+                # socket could be left out of the final socket shutdown.
+                sap = None if client.addr is None else self.sap[client.addr]
+                if sap is None:
+                    # link terminated after the connect was accepted
+                    client.bind(None)
+                    client.close()
+                    raise err.Error(errno.EPIPE)
+                sap.insert_socket(client)
             log.debug("new data link connection ({0} <=== {1})"
                       .format(client.addr, client.peer))
             if client.send_miu > self.cfg['send-miu']:
